@@ -271,6 +271,16 @@ def _guard_shape(prog, eff, chk, A5):
 
     class Unknown(Exception):
         pass
+    # locals of the guard's functions that are initialised once (`const bool active = ...;`)
+    local_inits = {}
+    for g_ in list(ctor) + list(dtor) + list(commit):
+        if g_.body is None:
+            continue
+        for x_ in walk(g_.body):
+            if x_.get('kind') == 'VarDecl':
+                init_ = [y_ for y_ in children(x_) if not y_['kind'].endswith('Attr') and not y_['kind'].endswith('Comment')]
+                if init_:
+                    local_inits[x_.get('id')] = init_[-1]
 
     def cond_value(cond, val):
         """Value of a condition of the guard in the state (flag == val, the transaction the
@@ -292,6 +302,8 @@ def _guard_shape(prog, eff, chk, A5):
         lit = program.literal_value(c)
         if lit is not None and isinstance(lit, (bool, int)):
             return lit
+        if c.get('kind') == 'DeclRefExpr' and (c.get('referencedDecl') or {}).get('id') in local_inits:
+            return cond_value(local_inits[c['referencedDecl']['id']], val)
         if c.get('kind') == 'BinaryOperator' and c.get('opcode') in ('==', '!='):
             a_, b_ = children(c)
             lv = program.literal_value(b_)
